@@ -147,3 +147,6 @@ def run(chk):
     inits.rule_handlers(chk, P, 'E4', 'E4b', 'E4c')
     # hash cells / cipher cells are shared with the job API by construction of T1 (C06); direct-API handler bindings:
     inits.rule_bindings(chk, P, 'E5', floor=900)
+    # E6: the N-buffer direct calls sort their packets before handing them to the same kernels the 1-buffer calls use
+    from . import swaps
+    swaps.rule_swaps(chk, P, 'E6', floor=8)
